@@ -65,7 +65,11 @@ def holder_facts(h):
         for s, t, ty in h.graph.edges(data="type")
         if ty == EdgeType.LINEAGE and isinstance(s, Column) and isinstance(t, Column)
     )
+    owned = sorted(
+        {coldesc(t) for s, t, ty in h.graph.edges(data="type") if ty == EdgeType.HAS_COLUMN and isinstance(t, Column)}
+    )
     return {
+        "owned_columns": owned,
         "read": sorted(dsdesc(t) for t in h.read),
         "write": sorted(dsdesc(t) for t in h.write),
         "cte": sorted(str(t) for t in h.cte),
